@@ -31,7 +31,10 @@ func scenarios(tier string) []svc.Scenario {
 		sc = append(sc,
 			svc.Scenario{Name: "queued-imports", Program: []string{"addtag:service/s=sport:53", "import:P1", "import:P2", "import:P3", "import:P4", "view.open:v1"}},
 			svc.Scenario{Name: "data-tag-and-reference", Program: []string{"addtag:tag/d=data:foo", "addtag:tag/r=tag:d sport:53", "import:P1", "import:P3", "import:P2", "view.open:v1"}},
-			svc.Scenario{Name: "converter-and-data-tag", Converter: true, Program: []string{"import:P1", "addtag:tag/p=cport:1", "addtag:tag/d=cdata:FOO", "converters:tag/p=conv", "import:P3", "import:P2"}},
+			// only one tag at a time may be waiting for evaluation: which of several pending tags the
+			// service evaluates first depends on Go's map iteration order, which the harness does not own
+			svc.Scenario{Name: "converter-on-mark-and-data-tag", Converter: true, Program: []string{"import:P1", "addtag:mark/m=id:0", "converters:mark/m=conv", "addtag:tag/d=cdata:FOO", "import:P3", "import:P2"}},
+			svc.Scenario{Name: "converter-reattach", Converter: true, Program: []string{"import:P1", "addtag:tag/p=cport:1", "converters:tag/p=conv", "import:P3", "converters:tag/p=", "import:P2", "converters:tag/p=conv"}},
 			svc.Scenario{Name: "restart", Program: []string{"import:P1", "addtag:tag/d=cdata:foo", "import:P2", "restart", "import:P3", "view.open:v1"}},
 		)
 	}
